@@ -21,6 +21,8 @@ RULES = {
     'C19.d': 'default strategy Newer for the admin database and for databases loaded without a metadata file',
     'C19.g': 'the store stamps an entry with the opp_id of the change that wrote it (issue order): the Newer comparison '
              'change.opp_id > stored.opp_id is then between two issue times, never between an issue time and an apply time',
+    'C19.j': 'issue order is the clock: the generator of operation ids (what Change::new stamps a change with) returns the wall clock at '
+             'nanosecond or microsecond resolution, with no wrapping component (%, &, >>) and no process-local counter mixed in',
     'C19.h': 'the version a resolving re-apply stores is old.version + 1 when the stored entry is not in conflict resolution (the stored '
              'version still only grows): the return table of Change::next_version, shared with C13.d',
     'C19.f': 'the conflict entry point calls the resolver only for VersionError; the resolver switches on metadata.consensus_strategy',
@@ -263,6 +265,36 @@ def stamp_rule(ck, m):
           'applied later but presents a stale version loses against the earlier one although it is the most recent write; the reply says Set '
           'and the replicas apply it, so they diverge from the primary' % bad, '%s:%s' % (sb.file, sb.line))
     ck.floor('C19.g', n, 2, 'Value aggregates built by the store')
+    # the store replaces the entry whole: a field-wise update through get_mut / entry keeps whatever it does not assign — the opp_id of the
+    # write that created the key, the disk offsets — and the Newer comparison then takes the age of the KEY for the age of the value
+    VM = 'std::collections::HashMap::<std::string::String, nundb::bo::Value>::'
+    inplace = [sb.loc(bi) for bi, t in sb.calls() if t['f'].get('dargs', '').startswith(VM)
+               and t['f']['dargs'][len(VM):].split('::')[0].split('<')[0] in ('get_mut', 'entry', 'iter_mut', 'values_mut')]
+    ck.ob('C19.g', short(sb.id), 'entry-replaced-whole', not inplace,
+          'the store writes an entry by inserting a complete Value' if not inplace else
+          'the store updates an existing entry in place (%s): the fields it does not assign survive — the entry keeps the opp_id of an earlier '
+          'write, so a stale change issued before the stored value still counts as newer, overwrites it and is announced' % inplace,
+          inplace[0] if inplace else '%s:%s' % (sb.file, sb.line))
+    # issue order is the clock: the id generator returns the wall clock at nanosecond (microsecond) resolution and nothing else — a
+    # component that wraps (a sequence taken modulo something) makes an id created later smaller than one created before
+    gens = [b for b in P.user_bodies() if b.kind in ('fn', 'method') and b.argc == 0 and b.locals[0] == 'u64'
+            and any(callee_decl(t).startswith('std::time::') for _, t in b.calls())
+            and any(callee(t) == b.id for cb in P.user_bodies() for _, t in cb.calls() if 'Change' in cb.id or cb.id == sb.id or True)]
+    gens = [b for b in gens if any(cb.id.startswith('nundb::bo::Change') or 'Change' in cb.id for cb, _ in P.callers().get(b.id, []))]
+    ng = 0
+    for gb in gens:
+        ng += 1
+        fine = [callee_decl(t).split('::')[-1] for _, t in gb.calls() if callee_decl(t) in ('std::time::Duration::as_nanos', 'std::time::Duration::as_micros')]
+        wraps = sorted({s_['r']['op'] for bl_ in gb.blocks if not bl_.get('cleanup') for s_ in bl_['s']
+                        if s_['k'] == 'assign' and s_['r']['k'] == 'bin' and s_['r']['op'].startswith(('Rem', 'BitAnd', 'Shr', 'Div'))})
+        other = sorted({callee_decl(t).split('::')[-1] for _, t in gb.calls() if 'atomic' in callee_decl(t)})
+        okc = bool(fine) and not wraps and not other
+        ck.ob('C19.j', short(gb.id), 'issue-order-is-the-clock', okc,
+              'operation ids are the wall clock (%s)' % fine if okc else
+              'operation ids are not simply the clock at nanosecond resolution (clock calls: %s, wrapping arithmetic: %s, counters: %s): an id '
+              'created later can be smaller than one created before — the Newer comparison drops the most recent write'
+              % (fine, wraps, other), '%s:%s' % (gb.file, gb.line))
+    ck.floor('C19.j', ng, 1, 'generators of operation ids (used by the Change constructors)')
 
 
 def returns_resolving(cb):
